@@ -1,5 +1,5 @@
 NAME = 'K-undo'
-PROPERTIES = ['C14']
+PROPERTIES = ['C14', 'C02']
 ENGINE = 'verus'
 CLASS = 'U'
 DOC = ('Database::{rollback_to_savepoint, undo_change} (storage/database/core.rs): ROLLBACK TO SAVEPOINT applies the INVERSE of every change recorded '
@@ -77,6 +77,28 @@ impl Database {
     { unimplemented!() }
 
 
+
+    /// the user-defined indexes of table t were (re)built from its current rows
+    pub uninterp spec fn idx_fresh(&self, t: Str) -> bool;
+    /// tables that have at least one user-defined index
+    pub uninterp spec fn indexed(&self) -> Seq<Str>;
+    // self.lifecycle.perform_rollback(&mut self.catalog, &mut self.tables): restores catalog and table contents from the snapshot; says nothing about indexes
+    #[verifier::external_body]
+    fn perform_rollback(&mut self) -> (r: Result<(), StorageError>)
+        ensures final(self).indexed() == old(self).indexed()
+    { unimplemented!() }
+    // self.list_indexes().iter().filter_map(|n| self.get_index(n).map(|m| m.table_name.clone())).collect::<BTreeSet<_>>()
+    #[verifier::external_body]
+    fn indexed_tables(&self) -> (r: Vec<Str>) ensures r@ == self.indexed() { unimplemented!() }
+    // Database::rebuild_indexes (Operations::rebuild_indexes: unit I-resolve)
+    #[verifier::external_body]
+    fn rebuild_indexes(&mut self, t: &Str)
+        ensures final(self).view() == old(self).view(), final(self).indexed() == old(self).indexed(), final(self).idx_fresh(*t),
+                forall|u: Str| old(self).idx_fresh(u) ==> final(self).idx_fresh(u)
+    { unimplemented!() }
+
+//@@ rollback_transaction
+
 //@@ rollback_to_savepoint
 
 //@@ undo_change
@@ -123,6 +145,22 @@ ITEMS = {
             // the recorded changes since the savepoint are undone, last first
             res is Ok ==> (old(self).since(name) is Some && final(self).view() == undo_last_first(old(self).view(), old(self).since(name).unwrap(), 0)),
 '''),
+
+    'rollback_transaction': dict(
+        file=_F, path='impl Database::fn rollback_transaction', ret='res',
+        rewrites=[('re', r'self\.lifecycle\.perform_rollback\(&mut self\.catalog, &mut self\.tables\)\?;', 'self.perform_rollback()?;', 1),
+                  ('re', r'let indexed_tables: std::collections::BTreeSet<String> = self\s*\.list_indexes\(\)\s*\.iter\(\)\s*\.filter_map\(\|index_name\| self\.get_index\(index_name\)\.map\(\|m\| m\.table_name\.clone\(\)\)\)\s*\.collect\(\);', 'let indexed_tables = self.indexed_tables();', 1),
+                  ('re', r'for table_name in indexed_tables \{', 'let mut ti__: usize = 0; while ti__ < indexed_tables.len() { let table_name = indexed_tables[ti__].clone(); ti__ = ti__ + 1;', 1)],
+        loops={0: '''
+            invariant ti__ <= indexed_tables@.len(), indexed_tables@ == self.indexed(),
+                forall|k: int| 0 <= k < ti__ ==> self.idx_fresh(#[trigger] indexed_tables@[k]),
+            decreases indexed_tables@.len() - ti__,
+'''},
+        contract='''
+        ensures
+            // after a successful ROLLBACK every table that has user-defined indexes has had them rebuilt from the restored rows
+            res is Ok ==> forall|k: int| 0 <= k < final(self).indexed().len() ==> final(self).idx_fresh(#[trigger] final(self).indexed()[k]),
+'''),
     'undo_change': dict(
         file=_F, path='impl Database::fn undo_change', ret='res', rewrites=_R12,
         contract='''
@@ -133,6 +171,7 @@ ITEMS = {
 
 OBLIGATIONS = {
     'rollback_to_savepoint': ['post:undoes_the_changes_since_the_savepoint_last_first', 'proof:loop_invariant'],
+    'rollback_transaction': ['post:indexes_rebuilt_for_every_indexed_table', 'proof:loop_invariant'],
     'undo_change': ['post:applies_the_inverse_of_the_change__update_removes_the_new_row_and_restores_the_old_one', 'safety:table_exists_before_use'],
 }
 CANARIES = ['canary_undo', 'canary_rollback']
@@ -141,5 +180,6 @@ TRUSTED = [
     'external_body tm_rollback_to_savepoint: TransactionManager::rollback_to_savepoint returns the changes recorded since the savepoint (proved on the real function in unit X-sp) and does not touch table contents',
     'external_body require_table / tbl_remove_row / tbl_insert (R12): get_table_mut(&name).ok_or_else(..)? followed by table.remove_row / table.insert, as operations on the bag of the named table. ASSUMED: remove_row removes exactly one equal row or fails with RowNotFound (cf. unit K-table); insert adds exactly the given row (it was in this table before: already normalised)',
     'NOT under contract: that INSERT / UPDATE / DELETE executors RECORD every change (Database::insert_row does; UpdateExecutor / DeleteExecutor / REPLACE / ON DUPLICATE KEY UPDATE / FK cascades do since the two C14 fixes, shown by SQL reproductions only)',
+    'external_body perform_rollback (TransactionManager::rollback_transaction: snapshot restore, not under contract here), indexed_tables (the list_indexes / get_index iterator chain), rebuild_indexes (unit I-resolve): by assumed contracts; undo_change\'s own calls to rebuild_indexes are dropped from the bag view (they do not change table contents)',
     'row ORDER inside a table after a rollback is not part of the contract (undo re-appends rows)',
 ]
